@@ -77,7 +77,7 @@ pub enum DigestAlgorithm {
 
 impl DigestId {
     pub fn new(i: i32) -> DigestId {
-        DigestId(if i.is_negative() { -i } else { i })
+        DigestId(i.saturating_abs())
     }
 }
 
